@@ -386,7 +386,7 @@ func genAxesSubset(rt *rapid.T, rank int) []int {
 	return axes
 }
 
-var c08Layouts = []string{"contig", "lazyT", "sliced", "stepsliced", "materialized", "clonedview", "slicedT", "physT"}
+var c08Layouts = []string{"contig", "lazyT", "sliced", "stepsliced", "materialized", "clonedview", "slicedT", "physT", "Tsliced", "leadsliced", "picked"}
 
 func TestC08(t *testing.T) {
 	sumDTs := append(append([]DT{}, ordNumDTs...), dtC64, dtC128)
